@@ -3872,7 +3872,13 @@ let low_within_surplus a s =
   | [] -> Raise ValueError
   | x :: l ->
     let lv = a.vmin x l in
-    Ok (filter (fun c -> a.gev (a.add0 lv s.surplus) c.cvote) (hopefuls a s))
+    let lows =
+      filter (fun c -> a.gev (a.add0 lv s.surplus) c.cvote) (hopefuls a s)
+    in
+    Ok
+    (match lows with
+     | [] -> filter (fun c -> a.eqv c.cvote lv) (hopefuls a s)
+     | _ :: _ -> lows)
 
 (** val meek_defeat_low :
     arith -> config -> (string -> string -> string) -> bool -> est -> est **)
